@@ -8,7 +8,7 @@ GInit == /\ Init
          /\ Cardinality({m \in mods : fail[m] # "none"}) <= 1
          /\ \A m \in mods : Cardinality(att[m]) <= 2
          /\ polls \in {mods, {}} \cup {{m} : m \in mods}
-         /\ writes \in {polls, {}}
+         /\ writes \in {polls, {}, mods, mods \ polls}
 GSpec == GInit /\ [][FALSE]_vars
 MCSpec == GInit /\ [][Next]_vars          \* design check over the same bounded configuration space
 Emit1 == PrintT(<<"BEH", ToJson([mods |-> mods, att |-> att, wrong |-> wrong, fail |-> fail, polls |-> polls, writes |-> writes])>>)
